@@ -24,6 +24,7 @@ MODELS_C12 = [
     "m15_shutdown_vs_close_vs_grant",
     "m16_two_parking_writers_one_credit_vs_grant",
     "m17_two_parking_writers_one_credit_vs_close",
+    "m22_two_writers_no_credit",
     "m18_parked_writer_vs_local_shutdown",
     "m19_bridge_waits_for_credit_vs_acknowledge",
     "m20_bridge_waits_for_credit_vs_close",
@@ -48,7 +49,7 @@ MODELS_C13 = ["m19_bridge_waits_for_credit_vs_acknowledge", "m20_bridge_waits_fo
 # decision: a credit that is lost or counted twice under a racing grant ends in an overrun, a Reset and truncated data)
 MODELS_C02 = ["m3_two_writes_vs_acknowledge", "m8_three_writes_two_acknowledges", "m12_push_frames_vs_two_granting_threads"]
 # credit conservation under racing grants (part of C03's decision)
-MODELS_C03 = ["m1_writer_vs_acknowledge", "m3_two_writes_vs_acknowledge", "m4_writer_vs_acknowledge_vs_close", "m8_three_writes_two_acknowledges"]
+MODELS_C03 = ["m1_writer_vs_acknowledge", "m3_two_writes_vs_acknowledge", "m4_writer_vs_acknowledge_vs_close", "m8_three_writes_two_acknowledges", "m22_two_writers_no_credit"]
 
 
 def build():
